@@ -44,7 +44,11 @@ class Gen:
             exp = "%s next=%s" % (expected_hdr, nxt)
         else:
             exp = "ok %s next=%s" % (expected_hdr, nxt)
-        self.cases.append((opts, hexs(prev) if prev else "-", pfn, data, exp, kind))
+        if isinstance(prev, (list, tuple)):
+            prevs = ",".join(hexs(x) for x in prev)      # a chain: each header parsed with the one before it as predecessor
+        else:
+            prevs = hexs(prev) if prev else "-"
+        self.cases.append((opts, prevs, pfn, data, exp, kind))
 
 
 def sorenson_cases(g, rng, thorough):
@@ -277,6 +281,15 @@ def plus_cases(g, rng, thorough):
         # not retransmit the format has not changed it, so it must parse and inherit
         one("ufep0-inherit-after-parsed-header", prev=pb.to_bytes(), pfn=0, ufep=0, inherited=inherited, rps=rps, trpi=5 if rps else None,
             ptype=1, rru=bits % 2)
+        # chains: the modes stay in force through any number of headers that do not retransmit them
+        if bits in (0, 1023) or bits & (bits - 1) == 0 or rng.below(2) == 0:
+            for hops in (1, 2):
+                chain = [pb.to_bytes()]
+                for k in range(hops):
+                    mid = S.Bits(); mid.extend(S.plus_header(3 + k, 4 + k, ufep=0, rps=rps, trpi=9 + k if rps else None, ptype=1)); mid.put(0, 7)
+                    chain.append(mid.to_bytes())
+                one("ufep0-inherit-chain", prev=chain, pfn=0, ufep=0, inherited=inherited, rps=rps, trpi=5 if rps else None,
+                    ptype=1, rru=bits % 2)
     one("ufep0-no-prev", ufep=0, ptype=1)
     # ... and with scalability negotiated: ELNUM is present, RLNUM is not (5.1.12: RLNUM only when UFEP = 001)
     for e in range(16):
